@@ -246,6 +246,12 @@ func (p *Policy) Assemble() ([]bpf.Instruction, error) {
 		instructions = append(instructions, groupInsts...)
 	}
 
+	// No group matched: return the default action. This is also the
+	// destination of the jump that is taken when the arch does not match.
+	defaultRet := NewProgram()
+	defaultRet.Ret(p.DefaultAction)
+	instructions = append(instructions, defaultRet.instructions...)
+
 	// Filter out x32 to prevent bypassing blacklists by using the 32-bit ABI.
 	var x32Filter []bpf.Instruction
 	if p.arch.ID == arch.X86_64.ID {
@@ -260,7 +266,7 @@ func (p *Policy) Assemble() ([]bpf.Instruction, error) {
 	program = append(program, bpf.LoadAbsolute{Off: archOffset, Size: sizeOfUint32})
 
 	// If the loaded arch ID is not equal p.arch.ID, jump to the final Ret instruction.
-	jumpN := len(x32Filter) + len(instructions) - 1
+	jumpN := len(x32Filter) + len(instructions)
 	if jumpN <= 255 {
 		program = append(program, bpf.JumpIf{Cond: bpf.JumpNotEqual, Val: uint32(p.arch.ID), SkipTrue: uint8(jumpN)})
 	} else {
@@ -364,6 +370,11 @@ func (g *SyscallGroup) toSyscallsWithConditions() ([]SyscallWithConditions, erro
 	return syscalls, nil
 }
 
+// Assemble assembles the group into a list of BPF instructions that return the
+// group's action if one of its syscalls matches and fall through to the
+// instruction after the group otherwise. The default action is returned by
+// the instructions that Policy.Assemble appends after the last group, so
+// defaultAction is not used anymore.
 func (g *SyscallGroup) Assemble(defaultAction Action) ([]bpf.Instruction, error) {
 	if len(g.Names) == 0 && len(g.NamesWithCondtions) == 0 {
 		return nil, nil
@@ -382,7 +393,9 @@ func (g *SyscallGroup) Assemble(defaultAction Action) ([]bpf.Instruction, error)
 		syscall.Assemble(&p, action)
 	}
 
-	p.Ret(defaultAction)
+	// None of the syscalls matched: skip the action and continue with the
+	// instructions that follow the group (the next group or the default action).
+	p.Ja(1)
 
 	p.SetLabel(action)
 	p.Ret(g.Action)
